@@ -548,6 +548,15 @@ class Interp:
             pl = self._place(e["l"])
             if pl is not None:
                 res.append(Out("val", UNIT, o.st.set(pl, o.value)))
+            elif e["l"].get("k") == "tuple":
+                # destructuring assignment `(a, self.b) = (x, y)`
+                s2 = o.st
+                v = o.value
+                for i, le in enumerate(e["l"]["elems"]):
+                    pli = self._place(le)
+                    if pli is not None:
+                        s2 = s2.set(pli, v[1][i] if isinstance(v, tuple) and v[:1] == ("T",) and i < len(v[1]) else (v if is_unknown(v) else UNK))
+                res.append(Out("val", UNIT, s2))
             else:
                 res.append(Out("val", UNIT, o.st))
         return res
